@@ -165,7 +165,7 @@ func ParseStreamCallback(reader io.Reader, c Config, callback ParseCallback) err
 func (p Parser) ParseStream(reader io.Reader) {
 	if err := ParseStreamCallback(reader, p.config, func(n *shared.ParserNode, err error) (stop bool, cbError error) {
 		if err != nil {
-			p.Errors <- err
+			// the error is reported once, by the caller below
 			return true, err
 		}
 		p.Nodes <- n
